@@ -8,6 +8,7 @@ import Mappy.Model.Expr
 import Mappy.Gen.Props
 import Mappy.Model.Versioning
 import Mappy.Gen.Schemas
+import Mappy.Model.Transformer
 open Lean Mappy Mappy.Wire
 
 namespace Mappy.Driver
@@ -167,6 +168,40 @@ def vrunOp (req : Json) : Except String Json := do
   let (as, _) := Versioning.vrun fuel Gen.files [] ops
   pure (.arr (as.map (ofRes ofJ)).toArray)
 
+/-! ### transformer -/
+def jOfJson (j : Json) : J :=
+  match j with
+  | .num n => if n.exponent = 0 then .int n.mantissa else .null
+  | _ => .null
+
+partial def decodeTree (j : Json) : Except String Transformer.R := do
+  match j.getObjVal? "t" with
+  | .ok (.str ty) =>
+    let s ← getStr j "s"
+    let l := match j.getObjVal? "l" with | .ok v => jOfJson v | _ => .null
+    let c := match j.getObjVal? "c" with | .ok v => jOfJson v | _ => .null
+    pure (.tok ⟨s2l ty, s, .str s, l, c⟩)
+  | _ =>
+    let data ← getStr j "n"
+    let cm ← match j.getObjVal? "m" with
+      | .ok (.arr a) => do
+          let xs ← a.toList.mapM fun x => match x with | .str s => pure (s2l s) | _ => throw "bad comment"
+          pure (some xs)
+      | _ => pure none
+    let cs ← (← getArr j "c").mapM decodeTree
+    pure (.tree data cm cs)
+
+def transformOp (req : Json) : Except String Json := do
+  let floats ← pairsOf req "floats"
+  let cfg : Transformer.Cfg := { pos := ← getBool req "pos", com := ← getBool req "com", floatOf := fun s => lookupS s floats }
+  let tree ← decodeTree (← req.getObjVal? "tree")
+  match Transformer.transform cfg tree with
+  | .error e => pure (Json.mkObj [("err", .str e.name)])
+  | .ok r =>
+    match Transformer.resultJ r with
+    | some v => pure (Json.mkObj [("ok", ofJ v)])
+    | none => pure (Json.mkObj [("err", .str "UNSUPPORTED")])
+
 def handle (op : String) (req : Json) : Except String Json := do
   match op with
   | "echo" => pure (ofJ (← getJ req "v"))
@@ -188,6 +223,7 @@ def handle (op : String) (req : Json) : Except String Json := do
   | "findunique" => pure (resL (DictUtils.findunique (← getBool req "ci") (← getStr req "key") (← getList req "lst")))
   | "findkey" => pure (resJ (DictUtils.findkey (← getBool req "ci") (← getJ req "d") (← decodePath req "path")))
   | "vrun" => vrunOp req
+  | "transform" => transformOp req
   | "lower" => pure (Json.str (l2s (lower (← getStr req "s"))))
   | _ => throw s!"unknown op {op}"
 
